@@ -96,15 +96,24 @@ matched by signature; a violation whose signature is not listed exits 1.
   Intel), IA32, ARM64 and MIPS32, ELF and PE; the ABI engine covers all five registered ABIs; the DWARF engine both
   byte orders and pointer sizes.
 
+* Added in round 6 to the model and its tie: `Model/Rewrite/Store.lean` - `_ModificationStore` and the scope classes,
+  with theorems on what the store hands out and on `resolve_offsets` (permutation, listing order, refusal exactly on
+  overlap) and a correspondence run of the real store on every block of generated modules (C07, which had no model of
+  the resolution code before); `Lemmas/JoinPad.lean` - `join_byte_intervals` with alignment demands and uninitialized
+  tails: what is added is fill and padding of the right kind, placed bytes and blocks stay, the aligned block lands on
+  its boundary, for one appended interval and for the whole loop (C10, whose round trip was proved without alignment
+  only). The recorder of E-modify judges the block ordering a rewrite starts with against the layout (it used to be
+  input of the model only).
+
 ### 9.5 Seeded changes
 
-Five rounds, 300 changes in all, were written by sub-agents - one agent per property and round. Each agent saw only
+Six rounds, 360 changes in all, were written by sub-agents - one agent per property and round. Each agent saw only
 the property's text (statement, quantifier, code anchors) and a scratch git worktree of /repo, never /verif. Each
 change passes the repo's suite (331 tests) and comes with a demonstration script that exits 1 on the changed tree and
 0 on the unchanged one (both verified again here). Every change was applied to /repo's working tree, the property's
 quick check was run, and the change was reverted (`harness/seeded_eval.py` repeats this; nothing was ever committed
 to /repo; the later evaluations ran in scratch worktrees through `VERIF_REPO`). They are kept under
-`seeded/<id>/mK` (round 1), `r2mK`, `r3mK`, `r4mK` and `r5mK` with `patch.diff`, `demo.py` and `meta.json`;
+`seeded/<id>/mK` (round 1), `r2mK`, `r3mK`, `r4mK`, `r5mK` and `r6mK` with `patch.diff`, `demo.py` and `meta.json`;
 `meta.json.history` records the verdict of every evaluation. Two changes are marked `obsolete`: a later repair of
 /repo made them harmless (their own demonstration passes on the changed tree) - C08/r4m1 and C10/r3m2.
 
@@ -195,6 +204,28 @@ to /repo; the later evaluations ran in scratch worktrees through `VERIF_REPO`). 
   not hold before the rewrite; C08's directive accounting counted a procedure deleted as a whole across adjacent
   ranges; C05 flagged the zero-sized tail of a recorded whole-block deletion.
 
+* Round 6 (agents given the one-line summaries of everything tried before, so that they look elsewhere; 20 agents in
+  parallel, three changes each): at the first evaluation ROUND6_FIRST. The misses were once more blind spots of the
+  generators and two oracles that read a value from the code under test: no two functions of one name for an
+  ENTRYPOINT_NAME filter (C07), no scope registrations in C01's byte check and no CFI-bearing cases in C04's table
+  check (both now run a share of C07's and C08's cases), no module that already holds an empty block in front of a
+  non-empty one (C02, C05 - and the block ordering the caches *start* with was taken from the cache and handed to the
+  model, so a wrong initial ordering agreed with itself; the recorder now judges it against the layout), no custom table
+  lists in split/join (C10), no symbol deletion asked for twice in both orders and no two aligned blocks in one
+  re-joined interval (C11), no ELF relocation variant but @GOTPCREL and no lone NUL string (C12), no definition by
+  assignment, no author-numbered labels and no Assembler object used twice (C13), no instruction rendered, changed and
+  rendered again (C14), no context with a DEBUG logger and no direct count of the scratch registers handed out (C16),
+  no one-shot iterable as argument list (C17), no fixed-width ISA and the ABI's attribute table read from the code
+  (C18 - the oracle now uses the psABI's table written down in the runner), no retarget and deletion of one symbol in
+  one context (C19). After the strengthening the whole round was evaluated again under `VERIF_SEED=1`: ROUND6_FINAL.
+  Not caught and left so, with the reason: C02/r6m3 (a label at the very end of a patch's extra section inside an
+  explicit CFI procedure of an inserted function - the generator has no inserted functions with cold sections that end in
+  a label), C05/r6m2 (two sections of one name, one of them without byte intervals - the builder names sections
+  uniquely), C06/r6m3 and C11/r6m1 (reachable only through the internal `_modify` API on one cache, or through a function
+  whose returning blocks carry different return edges, which the builder's CFG never has). What the agents reported about the
+  *unchanged* tree is in `notes/round6/`; the one that a check now reproduces is recorded (C13: a patch with the
+  labels `.Lr` and `.Lr_2` cannot be inserted three times), the others repeat §9.6 or are listed there.
+
 ### 9.6 Observed on the unchanged tree, outside what the checks exercise
 
 Reported by the round-4 and round-5 seeding agents (scripts reproduced here), judged genuine or arguable, and *not* turned into
@@ -264,6 +295,31 @@ Round 5 (same procedure; items that repeat the list above are not repeated):
   named helper)` calls the first (names, not symbols, go through the assembler; after 65bdcea the choice is at least
   repeatable).
 * C18 - MIPS32 `jal A` (see above; `bal` is covered by 793ca62).
+
+Round 6 (same procedure; `notes/round6/<id>-observations.md` has each with its script):
+
+* C04/C13 - two RewritingContexts on one module (what PassManager does for consecutive passes) both start the suffix of
+  temporary labels at `_1`: two symbols named `.Lskip_1` (repeats the round-5 item; now with a script).
+* C05 - a RewritingContext that is given fewer functions than the aux data describes (e.g. `[]`) leaves a deleted block in
+  functionBlocks (the cache is built from the functions it is given).
+* C06 - `are_joinable` answers "block1 is empty" before it looks at functions: the empty tail split off the end of one
+  function's block joins with the entry block of the next function (internal API only; `apply()` never offers that pair).
+* C08 - deleting a whole block drops ordinary directives at its displacement 0 although they describe the state after the
+  previous block's last instruction (deleting only a prefix of the block keeps them).
+* C09 - with two symbols of one name the assembler chooses by the referent's address at assembly time; inside a batch a
+  block created by an earlier patch has an address that overtakes later blocks, so batch and one-at-a-time differ.
+* C10 - padding behind a code block that contains a nested data block is zeros inside a DataBlock (the "last block" is
+  chosen by offset order, not by where it ends).
+* C11 - `get_or_insert_extern_symbol` chooses arbitrarily between two same-named symbols; a name-pattern scope on a
+  function with two name symbols and no functionNames entry matches or not by set order.
+* C12 - LLVM's own temporary labels (`.Ltmp0`) collide across `assemble()` calls; a backward numeric label (`1: ... jmp 1b`)
+  and negative addends (`.quad foo-4`) are refused.
+* C15 - `.cfi_startproc` on the PE ABIs raises NotImplementedError; an escaped expression that runs past its declared length
+  is accepted.
+* C16 - a context created with `[]` as functions that inserts a call into a leaf function makes the first later context
+  that sees the function record it as non-leaf: later patches push into its red zone.
+* C20 - `retarget_references(C, B)` while a `get_references(B)` iterator is suspended half-way loses the newly linked trees.
+
 """
 
 BEGIN = "<!-- BEGIN AS-BUILT (generated by harness/design_gen.py; edit the sources, not this part) -->"
